@@ -27,6 +27,10 @@ ROLE_BY_KEY = {
     "done": "done", "dones": "done", "terminated": "done",
 }
 ROLE_BY_POS5 = ["obs", "action", "reward", "next_obs", "done"]
+# on-policy rollouts: (states, actions, log_probs, rewards, dones, values, next_state, next_done)
+ROLE_BY_POS8 = ["obs", "action", "log_prob", "reward", "done", "value", "next_obs", "next_done"]
+# helpers that only re-pack a batch (stack / regroup per agent): experience roles pass through them
+BATCH_ADAPTERS = {"stack_experiences", "vectorize_experiences_by_agent", "stack_and_pad_experiences", "map"}
 
 # method calls that do not change the value (for the purposes of the formulae checked)
 ADAPTER_METHODS = {
@@ -673,6 +677,16 @@ class TermBuilder:
             ul = getattr(e, "_unpack_len", None)
             if isinstance(sl.value, int) and ul == 5 and self._is_batch_like(base):
                 origins = {o for o in origins if not o.startswith("role:")} | {f"role:{ROLE_BY_POS5[sl.value]}"}
+            if isinstance(sl.value, int) and ul == 8 and self._is_batch_like(base):
+                origins = {o for o in origins if not o.startswith("role:")} | {f"role:{ROLE_BY_POS8[sl.value]}"}
+            # x_k = map(f, (a, b, ...))[k]  ->  f(a_k): the role of element k survives the regrouping helper
+            ba = single_atom(self, base)
+            if isinstance(sl.value, int) and ba is not None and ba.kind == "call" and ba.name == "map" and len(ba.sub) >= 2:
+                seq = single_atom(self, ba.sub[-1])
+                if seq is not None and seq.kind == "seq" and 0 <= sl.value < len(seq.sub):
+                    inner = seq.sub[sl.value]
+                    f = ba.sub[-2]
+                    return self.mk(f"call:{f.key()}({inner.key()})", "call", self.origins(inner) | {f"call:{f.key()}"}, e, [f, inner], name=f.key().split(":")[-1])
             # seq literal indexing
             for k in base.atoms() if len(base.t) == 1 else []:
                 a = self.atoms.get(k)
@@ -696,6 +710,10 @@ class TermBuilder:
                 if all(self._is_batch_like(s) for s in a.sub) and a.sub:
                     continue
                 return False
+            if a.kind == "call" and a.name in BATCH_ADAPTERS and a.sub:
+                args = [s for s in a.sub if s.atoms() and not all(self.atoms[k].kind in ("global", "self") for k in s.atoms() if k in self.atoms)]
+                if args and all(self._is_batch_like(s) for s in args):
+                    continue
             return False
         return bool(base.atoms())
 
@@ -712,9 +730,9 @@ class TermBuilder:
             return inner
         if cn in ADAPTER_FUNCS and e.args:
             return self._term(e.args[0], at, _seen)
-        if cn in ("torch.zeros_like", "torch.zeros", "np.zeros_like", "np.zeros"):
+        if cn in ("torch.zeros_like", "np.zeros_like"):
             return Poly.const(0)
-        if cn in ("torch.ones_like", "torch.ones", "np.ones_like", "np.ones"):
+        if cn in ("torch.ones_like", "np.ones_like"):
             return Poly.const(1)
         if isinstance(f, ast.Attribute) and la == "logical_not":
             return Poly.const(1) - self._term(f.value, at, _seen)
